@@ -1,6 +1,7 @@
 """C07: collapse removes exactly the targeted branches; resolve only refines."""
 from lib import *
 import math
+import copy
 
 PROP = "C07"
 PAR_OK = True
@@ -10,7 +11,7 @@ RULE = ("random multifurcating trees (3..16 tips, 40 in thorough; rooted/unroote
         "the tree | 0 | a random dyadic | -1 | larger than all; collapse by support likewise; collapse by depth with every "
         "kind of interval (min<=max, min>max, 0, 1, n/2, beyond n); resolve with a recorded rand stream}; removeRoot and "
         "removeTips false (the commands' defaults, exact-set oracle) and the other flag values (correspondence, same tips, "
-        "well-formed); resolve (and collapse, correspondence only) on trees with single-child inner nodes - above polytomies, chains, under the root, the shape Reroot() leaves behind - with the oracle: such nodes stay and none is created, every node ends with at most 3 neighbours, input splits and distances kept; non-trivial = the structure changed; distinct = distinct case text.  Boundaries: thresholds are also drawn from {a length (support) of the tree, that value +- 2^-30, +- 2^-40, the next float64 above / below it, 0 with tiny positive lengths (2^-30, 2^-40, 2^-52) put on inner branches, a negative value}; some inner branches get the threshold +- a tiny dyadic as length (support); depth intervals are drawn around the depths present in the tree (d-1, d, d+1).  All values are exactly representable float64 and compared exactly (rationals) by the model and the oracle")
+        "well-formed); negative lengths in a share of the trees (resolve: distances also compared with every present length read as itself; collapse by length); resolve (and collapse, correspondence only) on trees with single-child inner nodes - above polytomies, chains, under the root, the shape Reroot() leaves behind - with the oracle: such nodes stay and none is created, every node ends with at most 3 neighbours, input splits and distances kept; non-trivial = the structure changed; distinct = distinct case text.  Boundaries: thresholds are also drawn from {a length (support) of the tree, that value +- 2^-30, +- 2^-40, the next float64 above / below it, 0 with tiny positive lengths (2^-30, 2^-40, 2^-52) put on inner branches, a negative value}; some inner branches get the threshold +- a tiny dyadic as length (support); depth intervals are drawn around the depths present in the tree (d-1, d, d+1).  All values are exactly representable float64 and compared exactly (rationals) by the model and the oracle")
 TRUSTED = ["tree built through NewNode/NewEdge + verif hooks (exact neighbour order); dump through Neigh()/Edges()/Left()/Right()"]
 ASSUMPTIONS = ["math/rand: Intn/Int31n/Perm transcribed in Model/Rand.v; the recorded Int63 stream is what Resolve consumes"]
 LEVEL_TEXT = "theorems in coq/Properties/C07.v about Model/Collapse.v; correspondence by exact structural equality with the Go result"
@@ -223,6 +224,17 @@ def gen(rng, tier):
         # resolve
         nb = sum(len(kids(x)) for x in preorder(t) if len(x["slots"]) > 3)
         ops.append({"op": Sym("resolve"), "tree": T(t), "seed": rng.randrange(1, 2**31), "nraw": 4 * nb + 16})
+        # negative lengths (legal Newick): resolve must keep every path length, collapse by length selects them
+        if rng.random() < 0.3:
+            es = [e for x in preorder(t) for e, _ in kids(x) if e["len"] is not None and e["len"] > 0 and e["len"] != 1]
+            if es:
+                t2 = copy.deepcopy(t)
+                es2 = [e for x in preorder(t2) for e, _ in kids(x) if e["len"] is not None and e["len"] > 0 and e["len"] != 1]
+                for e in rng.sample(es2, min(len(es2), rng.choice([1, 2, 3, len(es2)]))):
+                    e["len"] = -e["len"]
+                ops.append({"op": Sym("resolve"), "tree": T(t2), "seed": rng.randrange(1, 2**31), "nraw": 4 * nb + 16})
+                rr, rt = flags()
+                ops.append({"op": Sym("collapse_len"), "tree": T(t2), "l": rng.choice([Fraction(0), Fraction(-1, 4), Fraction(1, 2)]), "rr": rr, "rt": rt})
         # depth intervals around the depths present in the tree
         ds = branch_depths(t)
         if ds:
